@@ -357,6 +357,8 @@ def run(prog, rep, tier='quick', config='default'):
                     continue
                 a1 = {arg_sig(v.fn, a) for a in v.args if is_place(a) and re.search(r'Path|^u32$|^i32$', v.fn.ty.get(op_local(a), ''))}
                 a2 = {arg_sig(v2.fn, a) for a in v2.args if is_place(a) and re.search(r'Path|^u32$|^i32$', v2.fn.ty.get(op_local(a), ''))}
+                if not a1 or not a2:
+                    continue      # a closure that captures the directory and year instead of taking them as arguments
                 if a1 != a2 or any(t[0] == 'modified' for t in a1 | a2):
                     bad = 'the helper that creates the temp file and the helper that renames it are given different (directory, year) arguments'
                 cc = producer_calls(c2.fn, c2.args[-1] if 'OpenOptions' in c2.callee else c2.args[0])
@@ -377,9 +379,13 @@ def run(prog, rep, tier='quick', config='default'):
             rep.ok('R14f', '%s|temp-file-opened-truncating' % c.fn.name, where=c.where(), fn=c.fn.name, detail='%s truncates / creates' % short(c.callee))
             continue
         o = mir.provenance(c.fn, c.args[0], follow_all_call_args=True)
+        root = mir.nearest_user_local(c.fn, c.args[0])
+        bcalls = list(o.calls)
+        if root is not None:
+            bcalls += [x for x in c.fn.calls if x.args and 'OpenOptions' in x.callee and mir.nearest_user_local(c.fn, x.args[0]) == root]
 
-        def flag(name):
-            return any(x.short == name and len(x.args) > 1 and str(x.args[1].get('v')) == 'true' for x in o.calls)
+        def flag(name, calls=bcalls):
+            return any(x.short == name and len(x.args) > 1 and str(x.args[1].get('v')) == 'true' for x in calls)
         if (flag('truncate') or flag('create_new')) and not flag('append'):
             rep.ok('R14f', '%s|temp-file-opened-truncating' % c.fn.name, where=c.where(), fn=c.fn.name, detail='OpenOptions with truncate(true) / create_new(true)')
         else:
